@@ -600,7 +600,129 @@ def multi_case(ctx, clsname, method, datasets, ref_ind, br, ordmax, inst_ok=True
         ctx.note("multi-setup run raised after the Hankel matrices were built (not judged here): %s" % raised)
 
 
-def run_corpus(ctx, rng):
+ALL_DTYPES = ["float64", "int8", "int16", "int32", "int64", "uint8", "uint16", "uint32", "uint64"]
+DTYPE_RANGES = [
+    # name, lowest value, highest value (the dtypes that hold every value exactly are worked out from the values)
+    ("signed-small", -120, 120),          # int8 products leave int8
+    ("counts-120", 60, 127),              # fits all nine dtypes
+    ("counts-200", 150, 255),             # uint8 offset-binary counts: products leave uint8/int16 sums leave int16
+    ("signed-30000", -32768, 32767),
+    ("counts-60000", 50000, 65535),       # uint16 counts: products leave uint16, uint32 and int32
+    ("signed-2e9", -2**31, 2**31 - 1),
+    ("counts-4e9", 3 * 10**9, 2**32 - 1),  # uint32 counts: products leave uint32 and int64/uint64
+]
+
+
+def holds(dt, V):
+    info = np.iinfo(dt) if dt != "float64" else None
+    return info is None or (int(V.min()) >= info.min and int(V.max()) <= info.max)
+
+
+def dtype_case(ctx, method, V, ref, br, dtypes, pending, inst_ok=True, tag="dtype"):
+    """The same integer-valued record V (int64 array) presented in every dtype that holds it exactly: build_hank must
+    return the block matrix of the exact integer model (Coq model on the integers, queued in `pending`; exact
+    Python-integer construction of the definition here), to float tolerance, whatever the storage dtype.
+    ref = list of row indices (fancy copy in the same dtype), or "same" (Yref is Y)."""
+    l, Ndat = V.shape
+    N = Ndat - 2 * br - 1
+    Vr = V if ref == "same" else V[list(ref)]
+    r = Vr.shape[0]
+    case0 = dict(kind=tag, method=method, l=l, r=r, br=br, Ndat=Ndat, ref=ref, Y=V.tolist())
+    Yf, Yrf = V.astype(float), Vr.astype(float)
+    # exact construction of the definition with Python integers (cov) / projection Gram on the values (dat)
+    if method == "dat":
+        G, cond = projection_gram(Yf, Yrf, br)
+        if G is None:
+            ctx.not_judged += 1
+            return
+        Hdef = None
+    else:
+        Hdef = independent_vec(method, np.array(V.tolist(), dtype=object), np.array(Vr.tolist(), dtype=object), br).astype(float) if inst_ok else None
+    # exact model in Coq on the integer values (evaluated later, in one batch)
+    if inst_ok:
+        if method == "cov_mm":
+            pending[0].append("showMat (hank_mm_l QcOps %s %d %d %d %d %s %s)" % (qc(Fraction(1, N)), l, r, br, Ndat, qc_mat(Yf), qc_mat(Yrf)))
+        elif method == "cov_R":
+            pending[0].append("showMat (hank_R_l QcOps (fun n => Qcinv (Q2Qc (Z.of_nat n # 1))) %d %d %d %d %s %s)" % (l, r, br, Ndat, qc_mat(Yf), qc_mat(Yrf)))
+        else:
+            pending[0].append("showMat (dat_YfYpT_l QcOps %d %d %d %d %s %s) ++ \"|\" ++ showMat (dat_YpYpT_l QcOps %d %d %d %s)"
+                              % (l, r, br, Ndat, qc_mat(Yf), qc_mat(Yrf), r, br, Ndat, qc_mat(Yrf)))
+        results = []
+        pending[1].append((method, case0, results))
+    else:
+        results = []
+    Href = None
+    for dt in dtypes:
+        if not (holds(dt, V) and holds(dt, Vr)):
+            continue
+        presentations = [(dt, dt)]
+        if dt != "float64":
+            presentations += [(dt, "float64"), ("float64", dt)]
+        for dy, dr in presentations:
+            if ref == "same" and dy != dr:
+                continue
+            Y = V.astype(dy)
+            Yr = Y if ref == "same" else Vr.astype(dr)
+            case = dict(case0, dtype_Y=dy, dtype_Yref=dr)
+            ctx.count(case)
+            ctx.hist("record-dtype", (method, dy, dr))
+            try:
+                H = bh(ctx, Y, Yr, br, method, case)
+            except Exception as e:
+                ofail(ctx, "C12:%s:dtype-raised" % method, "build_hank %s raised %s for records stored as %s/%s: %s" % (method, type(e).__name__, dy, dr, str(e)[:200]), case)
+                continue
+            what = "records stored as %s (Y) / %s (Yref), values %d..%d" % (dy, dr, int(V.min()), int(V.max()))
+            if H.shape != ((br + 1) * l, (br + 1) * r) or not np.all(np.isfinite(H)):
+                ofail(ctx, "C12:%s:shape" % method, "build_hank %s, %s: shape %s / non-finite entries" % (method, what, H.shape), case)
+                continue
+            results.append((case, H, what))
+            if method == "dat":
+                HH = H @ H.T
+                ratio = np.trace(HH) / np.trace(G)
+                if not (ratio > 0) or not np.allclose(HH, ratio * G, rtol=0, atol=1e-8 * np.abs(HH).max()):
+                    ofail(ctx, "C12:dat:dtype", "build_hank dat, %s: H H^T is not a positive multiple of the projection Gram of the integer values (trace %.9g against %.9g)"
+                          % (what, np.trace(HH), np.trace(G)), case)
+                cmp_, name = HH, "Gram matrix"
+            else:
+                if Hdef is not None and not np.allclose(H, Hdef, rtol=0, atol=1e-9 * max(1.0, np.abs(Hdef).max())):
+                    I, J = np.unravel_index(np.argmax(np.abs(H - Hdef)), H.shape)
+                    i, j = I // l, J // r
+                    ofail(ctx, "C12:%s:dtype" % method, "build_hank %s, %s: entry (%d,%d) is not the sample cross-correlation at lag %d computed exactly on the integer values: "
+                          "expected %.9g, got %.9g" % (method, what, I, J, i + j + 1 if method == "cov_mm" else br + i - j, Hdef[I, J], H[I, J]), case)
+                cmp_, name = H, "matrix"
+            if Href is None:
+                Href = (cmp_, what)
+            elif not np.allclose(cmp_, Href[0], rtol=0, atol=1e-9 * max(1.0, np.abs(Href[0]).max())):
+                ofail(ctx, "C12:%s:dtype-consistency" % method, "build_hank %s: the %s depends on the storage dtype of the same integer values: %s against %s, max deviation %.6g of %.6g"
+                      % (method, name, what, Href[1], np.abs(cmp_ - Href[0]).max(), np.abs(Href[0]).max()), case)
+
+
+def dtype_flush(ctx, pending):
+    """Coq side of dtype_case: the exact model on the integer values against every presentation."""
+    res = ctx.coq_eval(HEADER, pending[0], shard=8)
+    for (method, case0, results), s in zip(pending[1], res):
+        if method == "dat":
+            a, b = s.split("|")
+            P = np.array([[float(x) for x in row] for row in parse_mat(a)])
+            S = np.array([[float(x) for x in row] for row in parse_mat(b)])
+            if np.linalg.cond(S) > 1e8:
+                ctx.not_judged += 1
+                continue
+            M = P @ np.linalg.solve(S, P.T)
+        else:
+            M = np.array([[float(x) for x in row] for row in parse_mat(s)])
+        for case, H, what in results:
+            if method == "dat":
+                HH = H @ H.T
+                ok = HH.shape == M.shape and np.allclose(HH, np.trace(HH) / np.trace(M) * M, rtol=0, atol=1e-8 * np.abs(HH).max())
+            else:
+                ok = H.shape == M.shape and np.allclose(H, M, rtol=0, atol=1e-9 * max(1.0, np.abs(M).max()))
+            if not ok:
+                ctx.fail("correspondence", "build_hank %s, %s: differs from the exact model evaluated on the integer values" % (method, what), case,
+                         key="C12:%s:corr-dtype" % method)
+
+
+def run_corpus(ctx, rng, pending):
     from pyoma2.algorithms import SSIcov, SSIdat
     for path in sorted(glob.glob(os.path.join(VERIF, "corpus", "C12", "*.json"))):
         c = json.load(open(path))
@@ -613,6 +735,10 @@ def run_corpus(ctx, rng):
         elif c["kind"] == "glue":
             glue_case(ctx, SSIdat if c["cls"] == "SSIdat" else SSIcov, c["method"], np.array(c["data"], dtype=float), c["ref_ind"], c["br"], tag=tag,
                       ordmax=c.get("ordmax"))
+        elif c["kind"] == "dtype":
+            conv = True if c["method"] == "dat" else convention(ctx, c["method"], c["br"])
+            dtype_case(ctx, c["method"], np.array(c["Y"], dtype=np.int64), c["ref"], c["br"], c.get("dtypes", ALL_DTYPES), pending, tag=tag,
+                       inst_ok=bool(conv) and (conv is True or conv[1]))
         elif c["kind"] == "multi":
             ds = multi_data(c["data_seed"], c["ndats"], c["nsens"])
             for clsname, method in c["runs"]:
@@ -628,10 +754,12 @@ def run(ctx):
                          "reference records (same object / view / fancy copy / independent) with two builds each, records of 32.8k..131k "
                          "samples (definition in O(N) + single product weights by indicator probes), class glue for ref_ind None / all / "
                          "permuted / subsets, ordmax swept to the largest legal order, multi-setup path (PreGER) with n_mov != n_ref observed "
-                         "by wrapping ssi.build_hank; every build_hank call is followed by a bit-comparison of its arguments")
+                         "by wrapping ssi.build_hank; integer-valued records stored as float64/int8..int64/uint8..uint64 (values up to the top of "
+                         "each range) against the exact integer model; every build_hank call is followed by a bit-comparison of its arguments")
     _CONV.clear()
     # ---- corpus first (failing inputs of changes that once slipped through)
-    run_corpus(ctx, rng)
+    pending = ([], [])
+    run_corpus(ctx, rng, pending)
     ctx.assumptions += [
         "oracle contract (Section hypothesis of C12_dat_gram): numpy.linalg.qr returns R with Ys^T = Q R, Q^T Q = I, leading block invertible",
         "window/weight tables of the executed parametric model are MEASURED from build_hank on the unit-impulse basis (the property leaves them free)",
@@ -751,6 +879,21 @@ def run(ctx):
             ctx.fail("oracle", "build_hank dat: H H^T is not the Gram matrix of the projection of the future on the past references", case, key="C12:dat:gram")
         elif abs(ratio * N - 1) > 1e-8:
             ctx.note("dat Gram differs from the model instance by the positive scalar %.6g (normalisation is not pinned by the property)" % (ratio * N))
+
+    # ---- storage dtype of the records: integer-valued records as float64 / int8..64 / uint8..64 give the matrix of the exact integer model
+    dshp = [(2, [1], 1), (3, [2, 0], 2), (2, "same", 1)] if ctx.quick() else [(1, [0], 1), (2, [1], 1), (3, [2, 0], 2), (2, "same", 1), (3, "same", 2), (4, [3, 0, 1], 3)]
+    for (name, lo, hi) in DTYPE_RANGES:
+        for n, (l, ref, br) in enumerate(dshp):
+            for method in ("cov_R", "cov_mm", "dat"):
+                if ctx.quick() and n == 1 and method != "cov_R" and name.startswith("signed"):
+                    continue
+                r = l if ref == "same" else len(ref)
+                Ndat = 2 * br + 6 + int(rng.integers(0, 6)) + (3 * (br + 1) * (l + r) if method == "dat" else 0)
+                V = rng.integers(lo, hi + 1, size=(l, Ndat), dtype=np.int64)
+                if lo >= 0 and rng.random() < 0.5:  # records hugging the top of the range (offset-binary counts near full scale)
+                    V = np.maximum(V, hi - (hi - lo) // 4)
+                dtype_case(ctx, method, V, ref, br, ALL_DTYPES, pending, inst_ok=inst[method])
+    dtype_flush(ctx, pending)
 
     # ---- every way of passing the reference records, two builds each (all three methods)
     ashapes = [(2, 1, 1), (3, 2, 2), (4, 3, 1)] if ctx.quick() else [(l, r, br) for l in (1, 2, 3, 4) for r in range(1, l + 1) for br in (1, 2, 3)]
